@@ -253,6 +253,10 @@ func ruleC07Deleg(e *Env) {
 		},
 		"(*go.lstv.dev/util/date.Date).FromTime": func(ev *pred.Evaluator, args []pred.Val) (pred.Val, error) {
 			log = append(log, fmt.Sprintf("(*Date).FromTime(%v,%v)", args[0], args[1]))
+			// the method sets its receiver to what the function returns (both are checked by ruleFromTime)
+			if p, ok := args[0].(pred.Ptr); ok && p.Cell != nil && len(p.Path) == 0 {
+				p.Cell.V = pred.Term{Fn: "FromTime", Args: []pred.Val{args[1]}}
+			}
 			return pred.Tuple{}, nil
 		},
 	}
@@ -284,7 +288,7 @@ func ruleC07Deleg(e *Env) {
 		switch {
 		case err != nil:
 			e.S.Unk(rule, site, construct, "not evaluable symbolically: "+err.Error(), e.Pos(fn))
-		case got.String() != want:
+		case !oneOf(got.String(), want):
 			e.S.Bad(rule, site, construct, fmt.Sprintf("computes %s, the documented delegation is %s", short(got.String()), short(want)), e.Pos(fn), "")
 		default:
 			e.S.Ok(rule, site, construct, "= "+short(want), e.Pos(fn))
@@ -294,7 +298,9 @@ func ruleC07Deleg(e *Env) {
 	T := func(p string) string { return a.canonTime(p) }
 	check(e.Method(rule, "date", "Date", "Time"), "Time", T("d"), d)
 	check(e.Method(rule, "date", "Date", "Sub"), "Sub", "(time.Time).Sub("+T("d")+","+T("e")+")", d, x)
-	check(e.Method(rule, "date", "Date", "DaysBetween"), "DaysBetween", "conv[int](/((time.Duration).Hours((time.Time).Sub("+T("d")+","+T("e")+")),24))", d, x)
+	// whole days of the same difference: float hours / 24 truncated, or the integer quotient by 24h (equal on every
+	// multiple of 24h and on the saturated durations, the only values Sub of two midnights can take)
+	check(e.Method(rule, "date", "Date", "DaysBetween"), "DaysBetween", "conv[int](/((time.Duration).Hours((time.Time).Sub("+T("d")+","+T("e")+")),24))|/((time.Time).Sub("+T("d")+","+T("e")+"),86400000000000)", d, x)
 	check(e.Method(rule, "date", "Date", "Add"), "Add", "FromTime((time.Time).AddDate("+T("d")+",years,months,days))", d, pred.Sym{Name: "years"}, pred.Sym{Name: "months"}, pred.Sym{Name: "days"})
 	check(e.Method(rule, "date", "Date", "AddDuration"), "AddDuration", "FromTime((time.Time).Add("+T("d")+",duration))", d, pred.Sym{Name: "duration"})
 	check(e.Fn(rule, "date", "New"), "New", "FromTime(time.Date(year,month,day,0,0,0,0,*time.UTC))", pred.Sym{Name: "year"}, pred.Sym{Name: "month"}, pred.Sym{Name: "day"})
@@ -446,6 +452,15 @@ func ruleNewDeleg(e *Env, rule string) {
 			return pred.Term{Fn: "FromTime", Args: args}, nil
 		}
 	}
+	if m := e.P.Method("date", "Date", "FromTime"); m != nil {
+		sums[m.String()] = func(ev *pred.Evaluator, args []pred.Val) (pred.Val, error) {
+			if p, ok := args[0].(pred.Ptr); ok && p.Cell != nil && len(p.Path) == 0 {
+				p.Cell.V = pred.Term{Fn: "FromTime", Args: []pred.Val{args[1]}}
+				return pred.Tuple{}, nil
+			}
+			return nil, &pred.Undecided{Reason: "(*Date).FromTime on an unmodelled receiver"}
+		}
+	}
 	ev := &pred.Evaluator{Prog: e.P.SSA, Oracle: noOracle{}, Summaries: sums}
 	out, err := ev.Eval(fn, []pred.Val{pred.Sym{Name: "year"}, pred.Sym{Name: "month"}, pred.Sym{Name: "day"}})
 	want := "FromTime(time.Date(year,month,day,0,0,0,0,*time.UTC))"
@@ -457,4 +472,14 @@ func ruleNewDeleg(e *Env, rule string) {
 	default:
 		e.S.Ok(rule, flow.FnName(fn), "New", "= "+want, e.Pos(fn))
 	}
+}
+
+// oneOf: s equals one of the |-separated alternatives.
+func oneOf(s, alts string) bool {
+	for _, a := range strings.Split(alts, "|") {
+		if s == a {
+			return true
+		}
+	}
+	return false
 }
